@@ -335,6 +335,148 @@ def stage_r_mkread(rep, rng, valid, n):
     return bad
 
 
+# ----------------------------------------------------------------------------- R: MakeSem.build vs real make
+STAMP_SH = '''#!/bin/sh
+# stamp.sh [-p] target : log the target, give it the next clock value as mtime (not for phony), advance the clock
+n=$(cat ctr)
+if [ "$1" = "-p" ]; then echo "$2" >> log; else echo "$1" >> log; touch -d "@$n" "$1"; fi
+echo $((n+1)) > ctr
+'''
+
+
+def gen_graph(rng, rep):
+    """Random rule graph in topological order. Returns (rules, leaves_without_rule, nfiles)."""
+    nleaf = rng.randint(1, 5)
+    nder = rng.randint(1, 7)
+    rules = []
+    files = list(range(nleaf))
+    norule = []
+    for f in range(nleaf):
+        k = rng.random()
+        if k < 0.45:
+            rules.append([f, [], [], False, False])     # the empty rule the depfixer writes:  f:
+        else:
+            norule.append(f)                            # a plain source file
+    for i in range(nder):
+        t = nleaf + i
+        prs = rng.sample(files, rng.randint(0, min(3, len(files))))
+        rest = [x for x in files if x not in prs]
+        oo = rng.sample(rest, rng.randint(0, min(1, len(rest)))) if rng.random() < 0.25 else []
+        k = rng.random()
+        recipe, phony = True, False
+        if k < 0.12:
+            recipe = False
+            rep.count('ms:recipe-less-derived')
+        elif k < 0.2:
+            phony = True
+            rep.count('ms:phony')
+        rules.append([t, prs, oo, recipe, phony])
+        files.append(t)
+    return rules, norule, len(files)
+
+
+def run_real_make(d, rules, fs0, clk, ops):
+    sub = os.path.join(d, 'g')
+    shutil.rmtree(sub, ignore_errors=True)
+    os.makedirs(sub)
+    with open(os.path.join(sub, 'stamp.sh'), 'w') as f:
+        f.write(STAMP_SH)
+    mk = ['.PHONY: all' + ''.join(' f%d' % r[0] for r in rules if r[4]), 'all:' + ''.join(' f%d' % r[0] for r in rules)]
+    for t, prs, oo, recipe, phony in rules:
+        mk.append('f%d:%s%s' % (t, ''.join(' f%d' % p for p in prs), (' |' + ''.join(' f%d' % p for p in oo)) if oo else ''))
+        if recipe:
+            mk.append('\t@sh stamp.sh %s$@' % ('-p ' if phony else ''))
+    with open(os.path.join(sub, 'Makefile'), 'w') as f:
+        f.write('\n'.join(mk) + '\n')
+    for x, t in fs0:
+        p = os.path.join(sub, 'f%d' % x)
+        open(p, 'w').close()
+        os.utime(p, (t, t))
+    with open(os.path.join(sub, 'ctr'), 'w') as f:
+        f.write('%d\n' % clk)
+    res = []
+    for op in ops:
+        if op[0] == 0:
+            open(os.path.join(sub, 'log'), 'w').close()
+            p = subprocess.run(['make', '-rR'], cwd=sub, capture_output=True, text=True, timeout=60, env=common.impl_env())
+            log = [int(x[1:]) for x in open(os.path.join(sub, 'log')).read().split()]
+            m = re.search(r"No rule to make target 'f(\d+)'", p.stderr)
+            fail = int(m.group(1)) if m else None
+            if p.returncode != 0 and fail is None:
+                fail = 'make-error:' + p.stderr[-200:]
+            res.append([log, fail])
+        elif op[0] == 1:
+            n = int(open(os.path.join(sub, 'ctr')).read())
+            p = os.path.join(sub, 'f%d' % op[1])
+            open(p, 'a').close()
+            os.utime(p, (n, n))
+            with open(os.path.join(sub, 'ctr'), 'w') as f:
+                f.write('%d\n' % (n + 1))
+        else:
+            try:
+                os.remove(os.path.join(sub, 'f%d' % op[1]))
+            except FileNotFoundError:
+                pass
+    return res
+
+
+def stage_r_makesem(rep, rng, n):
+    d = common.scratch('c07ms')
+    bad = []
+    try:
+        calls, real = [], []
+        for _ in range(n):
+            rules, norule, nf = gen_graph(rng, rep)
+            fs0 = []
+            t = 100
+            for x in range(nf):
+                r = [r_ for r_ in rules if r_[0] == x]
+                exists = True
+                if r and r[0][4]:
+                    exists = False                      # phony targets are not files
+                elif r and r[0][3]:
+                    exists = rng.random() < 0.4         # a product may pre-exist, fresh or stale
+                elif r:
+                    exists = rng.random() < 0.85        # a leaf with an empty rule may be missing
+                else:
+                    exists = rng.random() < 0.93        # a plain source may be missing -> make must fail
+                if exists:
+                    fs0.append([x, 100 + rng.randrange(50) * 2])
+            ops = [[0], [0]]
+            for _ in range(rng.randint(1, 4)):
+                k = rng.random()
+                x = rng.randrange(nf)
+                if k < 0.6:
+                    ops.append([1, x])
+                    rep.count('ms:touch')
+                else:
+                    ops.append([2, x])
+                    rep.count('ms:delete')
+                ops.append([0])
+                if rng.random() < 0.3:
+                    ops.append([0])
+            calls.append(('makesem.session', [rules, fs0, 1000, ops]))
+            real.append(run_real_make(d, rules, fs0, 1000, ops))
+            rep.case('ms:%r' % ([rules, fs0, ops],), True)
+        rep.sample({'stage': 'R:makesem', 'rules [target, prereqs, order-only, recipe, phony]': calls[0][1][0],
+                    'fs': calls[0][1][1], 'ops': calls[0][1][3], 'make': real[0]})
+
+        def decs(name, r):
+            return [[x[0], (x[1][0] if x[1] else None)] for x in r]
+        dis = common.compare_model(rep, 'R:makesem', calls, real, decs, vm_limit=10)
+        for i, call, iv, mv in dis:
+            bad.append({'rules': call[1][0], 'fs': call[1][1], 'ops': call[1][3], 'make': iv, 'model': mv})
+        for r in real:
+            for log, fail in r:
+                rep.count('ms:build-failed' if fail is not None else ('ms:build-noop' if not log else 'ms:build-ran'))
+    finally:
+        shutil.rmtree(d, ignore_errors=True)
+    if bad:
+        rep.fail('R:makesem - MakeSem.build disagrees with GNU Make (%d cases), e.g. %r' % (len(bad), bad[0]),
+                 {'obligation': 'R:makesem', 'cases': bad[:5]}, found_input=False)
+    return bad
+
+
 def run(rep):
     rng = random.Random(rep.seed)
     thorough = rep.tier == 'thorough'
@@ -343,6 +485,7 @@ def run(rep):
     dis, valid = stage_w_depfix(rep, rng, n, 7 if thorough else 5)
     stage_r_cc(rep, rng, 60 if thorough else 12)
     stage_r_mkread(rep, rng, valid, 400 if thorough else 80)
+    stage_r_makesem(rep, rng, 300 if thorough else 40)
     if dis:
         i, call, iv, mv = dis[0]
         rep.fail('W:%s - model and implementation disagree (%d cases), e.g. %r: impl %r, model %r' % (
